@@ -631,14 +631,14 @@ fn proc_touched(rec: &ProcRecord) -> (BTreeSet<String>, BTreeSet<String>) {
 }
 
 pub fn run_proc(ctx: &mut Ctx, c: &Corpus, verif: &str) -> Vec<Replay> {
-    let rng = Rng::new(ctx.run_seed);
+    let mut rng = Rng::new(ctx.run_seed);
     let mut jrng = rng.fork("job");
     let job = draw_job(&mut jrng, c);
     let keys = crate::plan::keys_to_hex(&rng.fork("keys").bytes16());
     let mut out = Vec::new();
     let jd = hex128(job.digest());
     ctx.stats.inc("jobs");
-    let base_plan = ProcPlan { job: job.clone(), faults: vec![], keys: keys.clone(), clock: None, scratch_tag: String::new(), env: vec![] };
+    let base_plan = ProcPlan { job: job.clone(), faults: vec![], keys: keys.clone(), clock: None, scratch_tag: String::new(), env: vec![], stdout_full: false };
     let base = ctx.exec_proc(&base_plan, "C03", verif);
     if let Some(why) = &base.skipped {
         ctx.stats.inc(&format!("skipped:{}", why));
@@ -717,6 +717,25 @@ pub fn run_proc(ctx: &mut Ctx, c: &Corpus, verif: &str) -> Vec<Replay> {
         return out;
     }
 
+    // Probe: a crash must never end in exit status 0. stdout connected to a
+    // full device makes `println!` panic — a sink fault, outside the
+    // property's fault set, so the panic itself is NOT judged here; what is
+    // judged is only that a process that printed "panicked at" did not go on
+    // to report success (a `main` that swallows the assembler's panic).
+    if job.spec.as_ref().map(|s| !s.quiet || s.groups.iter().any(|g| g.print)).unwrap_or(false) && rng.chance(1, 4) {
+        let mut pp = base_plan.clone();
+        pp.stdout_full = true;
+        let rec = ctx.exec_proc(&pp, "C03", verif);
+        ctx.stats.inc("evaluations");
+        ctx.stats.inc("sink_probe_runs");
+        if String::from_utf8_lossy(&rec.stderr).contains("panicked at") {
+            ctx.stats.inc("sink_probe_panics_seen");
+            if rec.exit == Some(0) {
+                out.push(proc_replay("C03", ctx.seed, ctx.run, Violation::new("I1-panic-with-exit-0", format!("the process panicked ({}) and still exited with status 0 | argv={:?}", String::from_utf8_lossy(&rec.stderr).lines().next().unwrap_or(""), job.argv)), pp.clone()));
+            }
+        }
+    }
+
     let (ins, outs) = proc_touched(&base);
     let mut space: Vec<ProcFault> = Vec::new();
     for p in &ins {
@@ -734,7 +753,7 @@ pub fn run_proc(ctx: &mut Ctx, c: &Corpus, verif: &str) -> Vec<Replay> {
     }
     ctx.stats.add("fault_space_total", space.len() as u64);
     for f in space {
-        let plan = ProcPlan { job: job.clone(), faults: vec![f.clone()], keys: keys.clone(), clock: None, scratch_tag: String::new(), env: vec![] };
+        let plan = ProcPlan { job: job.clone(), faults: vec![f.clone()], keys: keys.clone(), clock: None, scratch_tag: String::new(), env: vec![], stdout_full: false };
         let rec = ctx.exec_proc(&plan, "C03", verif);
         ctx.stats.inc("evaluations");
         ctx.stats.inc(&format!("fault_configured_{}", f.kind));
@@ -769,5 +788,11 @@ pub fn classify_proc(r: &Replay, verif: &str) -> Vec<Violation> {
         None
     };
     let rec = crate::procsim::run_proc(plan, verif);
+    if plan.stdout_full {
+        if String::from_utf8_lossy(&rec.stderr).contains("panicked at") && rec.exit == Some(0) {
+            return vec![Violation::new("I1-panic-with-exit-0", "the process panicked and still exited with status 0".to_string())];
+        }
+        return vec![];
+    }
     check_proc(&plan.job, &plan.faults, &rec, base.as_ref())
 }
